@@ -81,13 +81,18 @@ def rhsVars : Rhs → List String
   | .choice alts => alts.flatMap (fun (ep : Expr × Expr) => exprVars ep.1 ++ exprVars ep.2)
   | .dist _ ps => ps.flatMap exprVars
 
-partial def stmtVars : Stmt → List String
+mutual
+def stmtVars : Stmt → List String
   | .assign x rhs g d => x :: d :: (rhsVars rhs ++ condVars g)
   | .simult xs rhss => xs ++ rhss.flatMap rhsVars
-  | .ite c t e => condVars c ++ t.flatMap stmtVars ++ e.flatMap stmtVars
+  | .ite c t e => condVars c ++ stmtsVars t ++ stmtsVars e
+def stmtsVars : List Stmt → List String
+  | [] => []
+  | s :: rest => stmtVars s ++ stmtsVars rest
+end
 
 def progVars (P : Program) (extra : List String) : List String :=
-  (P.init.flatMap stmtVars ++ condVars P.guard ++ P.body.flatMap stmtVars ++ extra).eraseDups
+  (stmtsVars P.init ++ condVars P.guard ++ stmtsVars P.body ++ extra).eraseDups
 
 /-- one-step operators of a program: (mode, step over the body, step over the init block, agreement
     of the two computations on a probe list when both exist) -/
